@@ -79,6 +79,9 @@ type MapIterV struct {
 	Loop int
 }
 
+// NilFnV is a nil function value.
+type NilFnV struct{}
+
 // BuiltinV is a Go builtin function value.
 type BuiltinV struct{ Name string }
 
@@ -89,8 +92,9 @@ type BoundV struct {
 }
 
 type Event struct {
-	Ty string
-	KV [][2]string
+	Ty   string
+	KV   [][2]string
+	None bool // in expectations: no event of this type
 }
 
 type Store struct {
@@ -100,6 +104,8 @@ type Store struct {
 	Epoch  int
 	Events []Event
 	EvOpaque bool
+	Havocked bool
+	AnteRan  bool
 }
 
 type State struct {
@@ -112,16 +118,17 @@ type State struct {
 	recovering bool
 	panicVal   string
 	walks      int
+	gasCharged [][2]string
 }
 
 func (s *State) Clone() *State {
 	n := &State{pc: append([]string(nil), s.pc...), cells: make(map[int]Value, len(s.cells)), cellTy: s.cellTy,
-		stores: make(map[int]*Store, len(s.stores)), trace: append([]string(nil), s.trace...), recovering: s.recovering, panicVal: s.panicVal, walks: s.walks}
+		stores: make(map[int]*Store, len(s.stores)), trace: append([]string(nil), s.trace...), recovering: s.recovering, panicVal: s.panicVal, walks: s.walks, gasCharged: append([][2]string(nil), s.gasCharged...)}
 	for k, v := range s.cells {
 		n.cells[k] = v
 	}
 	for k, st := range s.stores {
-		ns := &Store{Parent: st.Parent, G: make(map[string]string, len(st.G)), Sorts: st.Sorts, Epoch: st.Epoch, EvOpaque: st.EvOpaque}
+		ns := &Store{Parent: st.Parent, G: make(map[string]string, len(st.G)), Sorts: st.Sorts, Epoch: st.Epoch, EvOpaque: st.EvOpaque, Havocked: st.Havocked, AnteRan: st.AnteRan}
 		for a, b := range st.G {
 			ns.G[a] = b
 		}
